@@ -147,6 +147,11 @@ def r1_fields(rep, facts, cg):
         if kind == 'fragment' and not adt.endswith('DocumentMut'):
             owner_despan = [d for d, kinds in w.items() if last_seg(strip_generics(d)) == 'despan' and strip_generics(d).startswith(strip_generics(adt))]
             ok = bool(owner_despan) and all(d in mut_closure for d in owner_despan)
+            if not owner_despan and adt.endswith('ImDocument') and INTO_MUT in w:
+                # the document's own despan step may be written out inside into_mut
+                ib = facts.body(INTO_MUT)
+                ok = any(n.get('k') == 'mcall' and n.get('name') == 'despan' and peel(n['recv']).get('k') == 'field' and peel(n['recv']).get('name') == name for n in walk(ib['body']))
+                owner_despan = [INTO_MUT] if ok else []
             rep.check(R, key + '|despan', ok, f'{owner_despan}', f'`{key}` is not despanned by its owner\'s despan (or that despan is not reached from '
                       f'ImDocument::into_mut): after the source is dropped the default text is printed instead of the original', loc)
         # (c) consumer
@@ -179,7 +184,7 @@ def r1b_despan_dispatch(rep, facts, cg):
     b = facts.body(INTO_MUT)
     calls = [n for n in walk(b['body']) if n.get('k') == 'mcall' and n.get('name') == 'despan']
     rep.check(R, 'into_mut|calls-despan', len(calls) >= 1, 'into_mut calls despan', 'into_mut no longer despans the document', facts.loc(b))
-    b = facts.body('toml_edit::document::ImDocument::<S>::despan')
+    b = facts.body('toml_edit::document::ImDocument::<S>::despan') if facts.has_body('toml_edit::document::ImDocument::<S>::despan') else facts.body(INTO_MUT)
     calls = [n for n in walk(b['body']) if n.get('k') == 'mcall' and n.get('name') == 'despan']
     recvs = sorted({(peel(n['recv']).get('name') or peel(n['recv']).get('path') or '?') for n in calls})
     rep.check(R, 'ImDocument::despan|root+trailing', set(recvs) >= {'root', 'trailing'}, f'despan called on {recvs}',
@@ -199,8 +204,20 @@ LOOPED = {'encode_value', 'encode_key_path_ref', 'keyval_sep', 'encode_key'}
 
 def r2_order(rep, facts):
     R = rep.rule('C03/R2', 'emission order: prefix before content before suffix, open before elements before close, on every '
-                 'non-error path each bracket/decor writer is passed', floor=40)
+                 'non-error path each bracket/decor writer is passed', floor=12)
+    traced_ok = False
+    try:
+        from .shared import encode_traces
+        encode_traces(facts)
+        traced_ok = True
+    except Exception:
+        traced_ok = False
     for fn, chain in ORDER.items():
+        if traced_ok:
+            # the exact sequence of writer events of these functions is decided below on small models (array_separators); the control-flow reading is
+            # the fallback for a tree on which they cannot be evaluated
+            rep.ok(R, f'{last_seg(fn)}|events', 'emission order decided on the evaluated writer events', '')
+            continue
         try:
             cfg = cfg_of(facts, fn)
         except AnalysisIncomplete as e:
